@@ -97,6 +97,29 @@ func c17Run(c *core.Ctx) {
 			walk(append(append([]byte{}, w.Data...), t...), "witness+tail")
 		}
 	}
+	// (1b) witnesses followed by each byte-string constant of the detectors'
+	// sources (directly, and behind 64 zero bytes): material that a check with a
+	// "not followed by" or "contains" condition reacts to
+	lits := literals(c)
+	c.Info("source_literals", fmt.Sprint(len(lits)))
+	for _, w := range W {
+		if len(w.Data) == 0 || len(w.Data) > 4800 {
+			continue
+		}
+		if !c.Next() || c.Expired() {
+			continue
+		}
+		if !isBinaryID(detect(w.Data, 0)) {
+			continue // only files that are identified as binary at some point matter here
+		}
+		for _, lit := range lits {
+			walk(append(append([]byte{}, w.Data...), lit...), "witness+source-literal")
+			if c.Thorough() || len(w.Data) < 700 {
+				f := append(append([]byte{}, w.Data...), make([]byte, 64)...)
+				walk(append(f, lit...), "witness+pad+source-literal")
+			}
+		}
+	}
 	// (2) splices
 	maxLen := 700
 	if c.Thorough() {
